@@ -35,6 +35,18 @@ CHECKS = [
      "design_ref": "DESIGN.md 5/C06",
      "level_text": "Generated-input search over mode assignments x scripts x programs x ways an episode ends, compared with a reference model after every command. Exploration.",
      "level_note": "Trusted: reference model in props/c06.py, independent reader vlib/gread.py (merge values), episode oracle of C01, plugin harness stubs (vlib/plugin_harness.py). Programs are mm/absolute with linear moves."},
+    {"id": "C10", "technique": "property-based testing (Hypothesis): differential twin - plugin with an arbitrary generated prior history vs freshly initialised plugin, same regions/settings, same program after print-started",
+     "design_ref": "DESIGN.md 5/C10",
+     "level_text": "Generated histories x programs with a differential oracle on every hook result, sent command and exception type. Exploration.",
+     "level_note": "Trusted: plugin harness stubs (vlib/plugin_harness.py); OctoPrint's own gcode_and_subcode_for_cmd to derive hook arguments. Behaviour only - internal state is not compared."},
+    {"id": "C11", "technique": "stateful property-based testing (Hypothesis RuleBasedStateMachine) against a reference model of the print lifecycle, with an ungated twin filter for the active phase",
+     "design_ref": "DESIGN.md 5/C11",
+     "level_text": "Model-based stateful search over interleavings of events, hook invocations, settings updates and API adds; invariants after every step. Exploration.",
+     "level_note": "Trusted: two-variable reference model in props/c11.py, plugin harness stubs. Print-end events delivered while no print is active are left unspecified. Un-homed exceptions are tolerated (outside the listed domains)."},
+    {"id": "C15", "technique": "property-based testing (Hypothesis) through the plugin's script hook: reference-printer differential for the contributed prefix, C06 reference model for its shape, state-snapshot comparison for inert invocations",
+     "design_ref": "DESIGN.md 5/C15",
+     "level_text": "Generated programs x script-hook invocation sequences; exactly-once and inertness checked on every invocation. Exploration.",
+     "level_note": _PRINTER_NOTE + " Shape of the prefix judged by the C06 reference model."},
     {"id": "C14", "technique": "property-based testing (Hypothesis): programs with @-commands, independent model of the action table, reference-printer differential and state-snapshot comparison",
      "design_ref": "DESIGN.md 5/C14",
      "level_text": "Generated-input search over programs x action tables with an enabled/disabled reference model; checks no suppression while disabled, re-synchronisation on a disable inside an episode, decisions after re-enabling against the true position, and inertness of unmatched / streaming @-commands. Exploration.",
